@@ -30,6 +30,11 @@ class _TupleStrip(ast.NodeTransformer):
 
     def visit_Subscript(self, node):
         self.generic_visit(node)
+        # a full-slice copy of a fresh list has the same content: [..][:] -> [..]
+        if isinstance(node.value, (ast.List, ast.ListComp)) and \
+                isinstance(node.slice, ast.Slice) and node.slice.lower is None and \
+                node.slice.upper is None and node.slice.step is None:
+            return node.value
         # (a, b)[0] is a
         if isinstance(node.value, ast.Tuple) and isinstance(node.slice, ast.Constant) and \
                 isinstance(node.slice.value, int) and not isinstance(node.slice.value, bool) \
